@@ -723,7 +723,9 @@ impl RADAU {
                 // Update solution
                 xold = x;
                 hold = h;
-                x = xph;
+                // The landing step, and a step that ends within the step-size resolution of xend,
+                // end on xend itself (x + (xend - x) can round to a neighbour of xend)
+                x = if last || 0.1 * (xend - xph).abs() <= xph.abs() * uround { xend } else { xph };
 
                 // Dense output coefficients and update y
                 for i in 0..n {
